@@ -71,6 +71,10 @@ class ExprMixin:
         ty = ty.strip()
         if ty == "val" or "|" in ty:
             return V("val", t)
+        if ty == "iterable":
+            st.assume(Val.is_R(t))
+            st.wf_ref(Val.r(t))
+            return V("ref", Val.r(t), cls="iterable")
         if ty.endswith("?"):
             base, elem = split_type(ty[:-1])
             r = Val.r(t)
@@ -152,6 +156,20 @@ class ExprMixin:
             return vref(st.new_list(v.t, cls="list"), cls="list", elem=v.elem)
         if v.k == "const":
             return self.const_to_heap(v.xs, st)
+        if v.k == "iter" and v.xs[0] in ("iter", "static"):
+            # a list iterator stored somewhere: heap object (the list it walks, position)
+            if v.xs[0] == "static":
+                lst = st.new_list(self.as_seq(V("tuple", xs=list(v.xs[1])), st))
+            else:
+                inner = v.xs[1]
+                if inner.k == "ref" and inner.cls == "list":
+                    lst = inner.t
+                else:
+                    lst = st.new_list(self.as_seq(inner, st))
+            r = st.alloc("iterator")
+            st.H["iterator.seq"] = z3.Store(st.comp("iterator.seq", Int), r, lst)
+            st.H["iterator.pos"] = z3.Store(st.comp("iterator.pos", Int), r, z3.IntVal(0))
+            return vref(r, cls="iterator")
         if v.k in ("bound", "iter", "gen", "builtin", "opaque"):
             r = st.alloc(v.k)
             return vref(r, cls=v.k)
@@ -274,6 +292,10 @@ class ExprMixin:
             return self.as_seq(V("tuple", xs=[self.lit(i) for i in v.xs]), st)
         if v.k == "gen":
             return v.t
+        if v.k == "iter" and v.xs[0] == "iter":
+            return self.as_seq(v.xs[1], st)
+        if v.k == "iter" and v.xs[0] == "reversed":
+            return self.rules.REV(self.as_seq(v.xs[1], st))
         raise Unsupported(f"not a sequence: {v!r}")
 
     def elem_type(self, v):
@@ -302,7 +324,7 @@ class ExprMixin:
                 return z3.BoolVal(False)
             return z3.And([self.py_eq(x, y, st) for x, y in zip(a.xs, b.xs)] or [z3.BoolVal(True)])
         seqish = lambda v: v.k in ("seq", "tuple") or (v.k == "ref" and v.cls in ("list", "tuple")) or \
-            (v.k == "const" and isinstance(v.xs, (list, tuple)))  # noqa
+            (v.k == "const" and isinstance(v.xs, (list, tuple))) or (v.k == "iter" and v.xs[0] in ("iter", "reversed"))  # noqa
         if seqish(a) and seqish(b):
             return self.as_seq(a, st) == self.as_seq(b, st)
         if a.k == "none" or b.k == "none":
@@ -497,7 +519,7 @@ class ExprMixin:
         if dotted == "fickling":
             return V("module", z3.IntVal(static_ref("module:fickling")), cls="fickling")
         parts = dotted.split(".")
-        if parts[0] == "ast" and len(parts) == 2 and parts[1][0].isupper():
+        if parts[0] == "ast" and len(parts) == 2 and parts[1] in self.repo.live["ast_fields"]:
             return V("cls", z3.IntVal(static_ref("class:" + dotted)), cls=dotted)
         if len(parts) == 1:
             return V("module", z3.IntVal(static_ref("module:" + dotted)), cls=dotted)
@@ -513,6 +535,13 @@ class ExprMixin:
                 pass
             if isinstance(valnode, ast.JoinedStr) or isinstance(valnode, ast.BinOp):
                 return V("str", fresh("modconst." + n, Str))
+            if isinstance(valnode, (ast.Attribute, ast.Name)):      # alias of another global (make_constant = ast.Constant)
+                saved = (self.cur_mod, self.spec_mode, st.env)
+                self.cur_mod, self.spec_mode, st.env = m, True, {}
+                try:
+                    return self.ev1(valnode, st)
+                finally:
+                    self.cur_mod, self.spec_mode, st.env = saved
             raise Unsupported(f"module global {m}.{n} has no declared type in the sidecar")
         t = st.read(f"module:{m}.{n}", z3.IntVal(static_ref("module:" + m)), sort_of_type(ft))
         return self.unbox(t, ft, st) if sort_of_type(ft) == Val else V(ft, t)
